@@ -10,5 +10,6 @@ CONSTANTS
   BkRechecksLock = FALSE
   GcRechecksBands = TRUE
   CreateNewEnforced = FALSE
+  GcLoserRemovesLock = FALSE
 INVARIANTS OneWinner NoMixing
 CHECK_DEADLOCK FALSE
